@@ -56,8 +56,8 @@ theorem UInv.trivia {st : PState} {ug p : Option Nat} {base : Nat} {E : Tree} {r
     UInv { st with checkForList := c, previousSecondDef := (getDefinition w.type).2, lastToken := w } ug p base E re cb := by
   refine ⟨h.n, h.nnl, h.hug, ?_, h.spine, ?_⟩
   · cases h.bot with
-    | plain hl hb => exact .plain hl hb
-    | closed cb G h1 h2 h3 h4 h5 => exact .closed cb G h1 h2 h3 h4 h5
+    | plain hl hb h3 h4 => exact .plain hl hb h3 h4
+    | closed cb G h1 h2 h3 h4 h5 h6 => exact .closed cb G h1 h2 h3 h4 h5 h6
   · rcases trivia_secdef hw with h | h
     · exact Or.inr (Or.inr (Or.inr (Or.inr (Or.inl h))))
     · exact Or.inr (Or.inr (Or.inr (Or.inr (Or.inr h))))
@@ -149,13 +149,13 @@ theorem step_closeU {st : PState} {g : Nat} {E : Tree} {re cb : Nat} (hinv : UIn
       endGroupingFixLastLeft stx st.nodes.size g = .ok stx := by
     intro stx h1 h2
     cases hinv.bot with
-    | plain hl hb =>
+    | plain hl hb _ _ =>
       obtain ⟨nd, hnd, hr, _⟩ := hb
       have hpos := hinv.n.pos
       exact endFix_noop stx _ g _ nd (by rw [h1, hl]) (by rw [h2]; exact hnd) (by omega) (Or.inl hr)
-    | closed cb G' hlt hl hG' hbr hsp =>
+    | closed cb G' hlt hl hG' hbr hsp _ =>
       have hm := onSpine_mem cb E hsp
-      have := ((hinv.n.mem cb).mp hm).1
+      have := (hinv.n.mem cb hm).1
       have hf := bracket_facts hbr
       exact endFix_noop stx _ g _ G' (by rw [h1, hl]) (by rw [h2]; exact hG') (by omega) (Or.inr ⟨hf.2.2.2.2.1, hf.2.2.2.2.2⟩)
   unfold step stepC
@@ -186,7 +186,7 @@ structure OpdRes (st1 st2 : PState) (sub : Tree) (cb : Nat) : Prop where
   below : ∀ j, j < st1.nodes.size → st2.nodes[j]? = st1.nodes[j]?
   size : st1.nodes.size < st2.nodes.size
   tree : IsTreeAt st2.nodes st1.nextParent (some st1.nodes.size) sub
-  inord : sub.inorder = List.range' st1.nodes.size (st2.nodes.size - st1.nodes.size)
+  inord : SortedIn st1.nodes.size st2.nodes.size sub.inorder
   nnl : st2.nextLastLeft = none
   gs : st2.groupStack = st1.groupStack
   cg : st2.currentGroup = st1.currentGroup
@@ -210,11 +210,10 @@ theorem OpdRes.hug {st1 st2 : PState} {sub : Tree} {cb : Nat} {ug : Option Nat} 
 
 theorem OpdRes.cb_ge {st1 st2 : PState} {sub : Tree} {cb : Nat} (h : OpdRes st1 st2 sub cb) : st1.nodes.size ≤ cb := by
   cases h.bot with
-  | plain _ _ => exact Nat.le_of_lt h.size
-  | closed cb G _ _ _ _ hsp =>
+  | plain _ _ _ _ => exact Nat.le_of_lt h.size
+  | closed cb G _ _ _ _ hsp _ =>
     have hm := onSpine_mem cb sub hsp
-    rw [h.inord, List.mem_range'_1] at hm
-    exact hm.1
+    exact (h.inord.2 cb hm).1
 
 /-- where a frame starts: at the very beginning, or right after its opening bracket `g` -/
 inductive FrameStart (st0 : PState) : Option Nat → Option Nat → Nat → Prop
@@ -234,7 +233,8 @@ theorem uinv_first {st0 st2 : PState} {ug p : Option Nat} {base : Nat} {sub : Tr
     (hfs : FrameStart st0 ug p base) (hug : underGroupOf st0 = .ok ug) (hres : OpdRes st0 st2 sub cb) :
     UInv st2 ug p base sub base cb := by
   obtain ⟨hb, hp⟩ := hfs.base_eq
-  refine ⟨⟨by rw [hb, hp]; exact hres.tree, by rw [hb]; exact hres.inord, by rw [hb]; exact hres.size, ?_, hres.prios⟩,
+  refine ⟨⟨by rw [hb, hp]; exact hres.tree, by rw [hb]; exact hres.inord, by rw [hb]; exact hres.tree.root_mem,
+      by rw [hb]; exact hres.size, ?_, hres.prios⟩,
     hres.nnl, hres.hug hug, hres.bot, hres.spine, hres.prev6⟩
   cases hfs with
   | top _ _ => exact .top 0
@@ -308,20 +308,25 @@ theorem bin_stepU {st : PState} {ug p : Option Nat} {base : Nat} {E : Tree} {re 
       obtain ⟨G', hG', hGr', hgl', pg', hpg'⟩ := hfr' g rfl
       exact .bracket g re' G' pg' hG' hgl' hpg' hGr'
   have hcbge := hres.cb_ge
-  refine ⟨⟨htree', ?_, by omega, hframe2, hres.prios⟩, hres.nnl, hres.hug hO1.hug, ?_, ?_, hres.prev6⟩
-  · rw [insertC_inorder, hinv.n.inord, hres.inord, hs1]
-    have e1 : st2.nodes.size - base = (st.nodes.size - base) + ((st2.nodes.size - (st.nodes.size + 1)) + 1) := by omega
-    have e2 : base + (st.nodes.size - base) = st.nodes.size := by omega
-    rw [e1, ← List.range'_append_1, List.range'_succ, e2]
+  have hsubin := hres.inord
+  rw [hs1] at hsubin
+  have hsubne : sub.inorder ≠ [] := List.ne_nil_of_mem hres.tree.root_mem
+  refine ⟨⟨htree', ?_, ?_, by omega, hframe2, hres.prios⟩, hres.nnl, hres.hug hO1.hug, ?_, ?_, hres.prev6⟩
+  · rw [insertC_inorder]
+    exact hinv.n.inord.append_cons hsubin (by omega) (by omega)
+  · rw [insertC_inorder]; exact List.mem_append_left _ hinv.n.first
   · cases hres.bot with
-    | plain hl hb => exact .plain hl hb
-    | closed _ G h1 h2 h3 h4 h5 => exact .closed _ G h1 h2 h3 h4 (onSpine_insertC h5)
+    | plain hl hb h3 h4 =>
+      refine .plain hl hb ?_ h4
+      rw [insertC_inorder, getLast?_append_cons', List.getLast?_cons_of_ne_nil hsubne]
+      exact h3
+    | closed _ G h1 h2 h3 h4 h5 h6 => exact .closed _ G h1 h2 h3 h4 (onSpine_insertC h5) h6
   · have hcong : ∀ i ∈ E.inorder, dfOf st.nodes i = dfOf st2.nodes i := by
       intro i hi
-      have := hdefs2 i ((hinv.n.mem i).mp hi).2
+      have := hdefs2 i (hinv.n.mem i hi).2
       simp only [dfOf, this]
     apply spineG_insertC (by omega) (by rw [hdn]; exact hnb) hres.spine
-    · intro hm; have := ((hinv.n.mem _).mp hm).2; omega
+    · intro hm; have := (hinv.n.mem _ hm).2; omega
     · exact hinv.spine.congr hcong
 
 end Garnish.Spec
